@@ -1,4 +1,5 @@
 import importlib
+import importlib.util
 import pathlib
 import sys
 import warnings
@@ -33,24 +34,38 @@ def load_model_from_file(path, register=False):
         If the model cannot be imported
     """
     path = pathlib.Path(path)
+    pdir = str(path.parent)
+    dwb = sys.dont_write_bytecode
+    # insert the plugin directory to sys.path so the model file can
+    # import modules that are located next to it
+    sys.path.insert(-1, pdir)
+    sys.dont_write_bytecode = True
     try:
-        # insert the plugin directory to sys.path so we can import it
-        sys.path.insert(-1, str(path.parent))
-        sys.dont_write_bytecode = True
-        module = importlib.import_module(path.stem)
-    except ModuleNotFoundError:
-        raise ModelImportError(f"Could not import '{path}'!")
+        # Load the module from its location (not via `import_module`,
+        # which would return a cached module for a different file that
+        # has the same name).
+        spec = importlib.util.spec_from_file_location(path.stem, path)
+        if spec is None:
+            raise ImportError(f"Not a Python source file: '{path}'")
+        module = importlib.util.module_from_spec(spec)
+        spec.loader.exec_module(module)
+    except (ImportError, OSError, SyntaxError) as exc:
+        raise ModelImportError(f"Could not import '{path}'!") from exc
     finally:
-        # undo our path insertion
-        sys.path.remove(str(path.parent))
-        sys.dont_write_bytecode = False
+        # undo our path insertion (remove the entry that we inserted,
+        # which is the last one matching `pdir`, not a pre-existing one)
+        for ii in reversed(range(len(sys.path))):
+            if sys.path[ii] == pdir:
+                sys.path.pop(ii)
+                break
+        sys.dont_write_bytecode = dwb
 
-        mod = NaniteFitModel(module)
+    mod = NaniteFitModel(module)
 
-        if register:
-            register_model(module)
+    if register:
+        register_model(mod)
 
-        return mod
+    return mod
 
 
 def register_model(module, *args):
